@@ -299,6 +299,43 @@ def rule_p_only(ctx):
                 R.viol("%s:assign:OLD" % b.path, b.where(loc), "the old table is overwritten in place")
             if ctx.roles.is_cursor_place(p2) and st["place"]["proj"] and (loc.bb, loc.i) not in rebuilds:
                 R.viol("%s:assign:CURSOR" % b.path, b.where(loc), "the cached cursor is overwritten with something other than OLD.iter() of the same old table")
+    # a mutable reference to the old table never leaves the body that takes it: whoever receives it could change the table behind the cursor's back
+    for b in ctx.facts.bodies.values():
+        for loc, st in b.all_assigns():
+            rv = st["rv"]
+            if b.is_cleanup(loc.bb) or rv["k"] not in ("ref", "rawptr") or not rv.get("mut") or st["place"]["proj"]:
+                continue
+            _, p2 = ctx.resolve(b, b.expand(rv["place"]))
+            if p2 is None or not ctx.roles.is_old_place(p2.strip_refs()):
+                continue
+            flow = {st["place"]["local"]}
+            grew = True
+            esc = None
+            while grew and esc is None:
+                grew = False
+                for loc2, st2 in b.all_assigns():
+                    if b.is_cleanup(loc2.bb):
+                        continue
+                    rv2 = st2["rv"]
+                    srcs = []
+                    if rv2["k"] in ("use", "cast") and rv2["op"]["k"] in ("copy", "move"):
+                        srcs = [rv2["op"]["place"]]
+                    elif rv2["k"] in ("ref", "rawptr", "copy_for_deref"):
+                        srcs = [rv2["place"]]
+                    elif rv2["k"] == "aggregate":
+                        srcs = [o["place"] for o in rv2["ops"] if o["k"] in ("copy", "move")]
+                    if any(pl["local"] in flow for pl in srcs) and st2["place"]["local"] not in flow:
+                        if st2["place"]["proj"] and st2["place"]["proj"][0]["k"] == "deref":
+                            esc = ("stored through a pointer", loc2)
+                            break
+                        flow.add(st2["place"]["local"])
+                        grew = True
+            if esc is None and 0 in flow:
+                esc = ("returned", loc)
+            if esc is not None:
+                R.inst(fn=b.path, site=b.where(loc), op="&mut OLD", verdict="VIOLATION")
+                R.viol("%s:OLD-escapes:%s" % (b.path, esc[0].split()[0]), b.where(esc[1]), "a mutable reference to the old table is %s by %s: code outside the cursor "
+                       "protocol can then insert into, clear or drain the table while the cached cursor still describes its former contents" % (esc[0], b.path))
     R.floor(4, "operations on OLD/CURSOR")
     return R
 
